@@ -192,6 +192,28 @@ theorem empty_reads (sf : ScaleFn α) {mb : Nat} {ops : List (Op α)} {s : St α
   simp only [quantile, hq, and_self, if_true, cdf]
   exact ⟨quantileInner_nil hc q, cdfInner_nil hc x⟩
 
+/-! ### end to end -/
+
+/-- After any history with at least one positive-weight insertion (since creation / `clear`), the
+public `quantile(q)`, `0 ≤ q ≤ 1`, returns a value between the least and the greatest inserted value,
+and the public `cdf(x)` a value in `[0, 1]`. -/
+theorem reads_reachable (sf : ScaleFn α) {mb : Nat} {ops : List (Op α)} {s : St α}
+    (h : run sf (new mb) ops = some s) (hne : inserted ops ≠ []) {q : α} (hq0 : 0 ≤ q) (hq1 : q ≤ 1) (x : α) :
+    (∃ v mn mx, (quantile sf s q).2 = .val v ∧ s.min = some mn ∧ s.max = some mx ∧ mn ≤ v ∧ v ≤ mx) ∧
+    (∃ v, (cdf sf s x).2 = some v ∧ 0 ≤ v ∧ v ≤ 1) := by
+  have hw := reachable_wf sf h
+  have hc : (merge sf s).centroids ≠ [] := by
+    intro e
+    have := (inv_merge sf (inv_reachable sf h)).emp.1 (by simp [e])
+    exact hne this
+  obtain ⟨v, hv⟩ := quantile_no_panic hw hc hq0 hq1
+  obtain ⟨mn, mx, hmin, hmax, _⟩ := hw.bounds hc
+  have hr := quantile_in_range hw hq0 hq1 hv hmin hmax
+  rw [merge_min] at hmin; rw [merge_max] at hmax
+  refine ⟨⟨v, mn, mx, ?_, hmin, hmax, hr⟩, ?_⟩
+  · simp only [quantile, hq0, hq1, and_self, if_true]; exact hv
+  · exact cdf_in_unit hw x
+
 /-! ### non-vacuity (over ℚ) -/
 
 /-- three centroids (weights 2, 1, 4; means 1, 3, 5), `min = 0`, `max = 6`, total weight 7;
@@ -227,5 +249,18 @@ example : cdfInner ex (19 / 5) = some (1 / 2) :=
     (by norm_num [quantileInner, quantileLoop, interpolate, totalCount, half, Centroid.mean, ex])
 example : ∃ mn, ex.min = some mn ∧ quantileInner ex 0 = .val mn := quantile_zero ex_wf (by simp [ex])
 example : ∃ mx, ex.max = some mx ∧ quantileInner ex 1 = .val mx := quantile_one ex_wf (by simp [ex])
+
+
+/-- a reachable state: four unit insertions and a read with `K0`, `δ = 4` -/
+theorem ex_run : run (k0 (4 : ℚ)) (new 10) [.insert 1 1, .insert 4 1, .insert 3 1, .insert 2 1, .read]
+    = some ⟨[⟨3, 2⟩, ⟨7, 2⟩], 4, some 1, some 4, [], 10⟩ := by
+  norm_num [run, step, insertWeighted, merge, List.mergeSort, List.MergeSort.Internal.splitInTwo,
+    List.merge, mergeLoop, k0, Centroid.fuse, Centroid.mean, new, minOpt, maxOpt, totalCount]
+  intro h; simp at h
+
+example : WF (merge (k0 (4 : ℚ)) ⟨[⟨3, 2⟩, ⟨7, 2⟩], 4, some 1, some 4, [], 10⟩) := reachable_wf _ ex_run
+
+example : quantileInner (⟨[⟨3, 2⟩, ⟨7, 2⟩], 4, some 1, some 4, [], 10⟩ : St ℚ) (1 / 2) = .val (5 / 2) := by
+  norm_num [quantileInner, quantileLoop, interpolate, totalCount, half, Centroid.mean]
 
 end Pds.Props.C15
